@@ -87,6 +87,11 @@ Stamp(batch, n) == [i \in 1..Len(batch) |->
                       [off |-> n + i - 1, ep |-> batch[i].ep, key |-> batch[i].key, id |-> batch[i].id]]
 Offs(recs) == [i \in 1..Len(recs) |-> recs[i].off]
 OccBad(batch, n) == cfg.occ /\ batch[1].exp # -1 /\ batch[1].exp # n
+\* a batch record is [off, ep, key, id, exp]: off = -1 for Append(msgs) (the log assigns the offsets);
+\* AppendMessageSet(bytes) (the follower's replicated append) brings its offsets with the data
+IsSet(batch) == batch # <<>> /\ batch[1].off >= 0
+Given(batch) == [i \in 1..Len(batch) |-> [off |-> batch[i].off, ep |-> batch[i].ep, key |-> batch[i].key, id |-> batch[i].id]]
+Laid(batch, n) == IF IsSet(batch) THEN Given(batch) ELSE Stamp(batch, n)
 
 -----------------------------------------------------------------------------
 (* Appender: Append(msgs)                                                   *)
@@ -96,15 +101,22 @@ G_AppBegin(batch) == app.pc = "idle"
 N_AppBegin(batch) == [S EXCEPT !.app = [pc |-> "chk", seg |-> 0, off |-> -1, batch |-> batch]]
 
 \* checkAndPerformSplit; split() takes l.mu.Lock           parks at: append.before_write
-G_AppChk == app.pc = "chk" /\ (Full(active) => LockFree)
-N_AppChk ==
+Split(s) ==
   IF Full(active)
-  THEN [S EXCEPT !.segs = Append(segs, NewSeg(segs[active].next)),
+  THEN [s EXCEPT !.segs = Append(segs, NewSeg(segs[active].next)),
                  !.files = files \cup {segs[active].next},
                  !.active = Len(segs) + 1,
-                 !.listed = Append(listed, Len(segs) + 1),
-                 !.app = [app EXCEPT !.pc = "pick"]]
-  ELSE [S EXCEPT !.app = [app EXCEPT !.pc = "pick"]]
+                 !.listed = Append(listed, Len(segs) + 1)]
+  ELSE s
+G_AppChk == app.pc = "chk" /\ (Full(active) => LockFree)
+N_AppChk == [Split(S) EXCEPT !.app = [app EXCEPT !.pc = "pick"]]
+
+\* AppendMessageSet(ms): checkAndPerformSplit, pick the active segment, index entries for the offsets
+\* in the data - no read-only check, no OCC, no gate before l.append     parks at: append.after_layout
+G_AppSetBegin(recs) == app.pc = "idle" /\ (Full(active) => LockFree)
+N_AppSetBegin(recs) ==
+  LET s == Split(S) IN
+  [s EXCEPT !.app = [pc |-> "epoch", seg |-> s.active, off |-> recs[1].off, batch |-> recs]]
 
 \* pick the active segment, lay the batch out for its next offset (OCC check)
 Pick(s) ==
@@ -120,7 +132,7 @@ N_AppPick == Pick(S)
 
 \* l.append: new leader epochs are recorded before the write  parks at: append.before_segment_write
 G_AppEpoch == app.pc = "epoch"
-N_AppEpoch == [S EXCEPT !.epochs = AssignRecs(epochs, Stamp(app.batch, app.off)),
+N_AppEpoch == [S EXCEPT !.epochs = AssignRecs(epochs, Laid(app.batch, app.off)),
                         !.app = [app EXCEPT !.pc = "wr"]]
 
 \* segment.WriteMessageSet; on ErrSegmentClosed: l.mu.RLock, `replaced`, start over on the segment
@@ -128,9 +140,9 @@ N_AppEpoch == [S EXCEPT !.epochs = AssignRecs(epochs, Stamp(app.batch, app.off))
 G_AppWrite == app.pc = "wr" /\ (segs[app.seg].closed => LockFree)
 N_AppWrite ==
   IF segs[app.seg].closed
-  THEN IF active # app.seg THEN Pick(S)
+  THEN IF active # app.seg /\ ~IsSet(app.batch) THEN Pick(S)             \* AppendMessageSet has no retry
        ELSE [S EXCEPT !.app = AppIdle, !.obs = [a |-> "Append", ret |-> <<>>, err |-> "closed"]]
-  ELSE LET new == Stamp(app.batch, app.off) IN
+  ELSE LET new == Laid(app.batch, app.off) IN
        [S EXCEPT !.segs = [segs EXCEPT ![app.seg].recs = @ \o new, ![app.seg].n = @ + Len(new),
                                        ![app.seg].next = Last(new).off + 1],
                  !.app = AppIdle,
@@ -288,14 +300,32 @@ N_NewEpoch(e) == [S EXCEPT !.epochs = Assign(epochs, e, Newest),
 \* the disk as it is now, opened by another process (crash image): the records a recovery finds
 \* (content of a file = the open object of that base; a file rewritten by a compaction that has not
 \* swapped yet = the object waiting in cln.res)
-DiskLog == LET RECURSIVE Ord(_)
-               Ord(X) == IF X = {} THEN <<>> ELSE LET b == SetMin(X) IN <<b>> \o Ord(X \ {b})
-               At(b) == LET K == {k \in 1..Len(segs) : segs[k].base = b /\ ~segs[k].closed}
+RECURSIVE Ord(_)
+Ord(X) == IF X = {} THEN <<>> ELSE LET b == SetMin(X) IN <<b>> \o Ord(X \ {b})
+DiskLog == LET At(b) == LET K == {k \in 1..Len(segs) : segs[k].base = b /\ ~segs[k].closed}
                             P == {i \in DOMAIN cln.res : cln.res[i].k = 0 /\ cln.res[i].s.base = b}
                         IN IF K # {} THEN segs[SetMax(K)].recs
                            ELSE IF P # {} THEN cln.res[SetMin(P)].s.recs ELSE <<>>
                o == Ord(files)
            IN Flat([i \in 1..Len(o) |-> At(o[i])])
+\* Close + New on the same directory (clean restart; nobody is inside a call): every object is
+\* closed, one new object per file, the epoch cache is trimmed at both ends, the HW is checkpointed
+G_Reopen == app.pc = "idle" /\ trn.pc = "idle" /\ cln.pc = "idle"
+N_Reopen ==
+  LET o     == Ord(files)
+      At(b) == LET K == {k \in 1..Len(segs) : segs[k].base = b /\ ~segs[k].closed}
+               IN IF K = {} THEN <<>> ELSE segs[SetMax(K)].recs
+      old   == [k \in 1..Len(segs) |-> IF segs[k].closed THEN segs[k] ELSE Closed(segs[k], FALSE)]
+      new   == [i \in 1..Len(o) |-> Filled(o[i], At(o[i]))]
+      n     == Len(segs)
+      lastn == new[Len(o)].next
+      first == IF new[1].recs = <<>> THEN -1 ELSE new[1].recs[1].off
+  IN [S EXCEPT !.segs = old \o new, !.listed = [i \in 1..Len(o) |-> n + i], !.active = n + Len(o),
+               !.epochs = ClearEarliest(ClearLatest(epochs, lastn), first),
+               !.rd = [r \in Readers |-> NoReader],
+               !.obs = [a |-> "Reopen", ret |-> <<>>, err |-> ""]]
+P_Reopen == obs'.err = "" /\ ViewOf(segs', listed') = View /\ hw' = hw
+
 G_CrashImage == TRUE
 N_CrashImage == [S EXCEPT !.obs = [a |-> "CrashImage", ret |-> DiskLog, err |-> ""]]
 
@@ -371,6 +401,7 @@ X05_Epochs == (Settled /\ taint = {}) => EpochsMatch(View, epochs)
 P_AppendRet(batch, pre) ==
   IF obs'.err = ""
   THEN /\ obs'.ret = [i \in 1..Len(batch) |-> obs'.ret[1] + i - 1]
+       /\ IsSet(batch) => obs'.ret = [i \in 1..Len(batch) |-> batch[i].off]
        /\ LET v == ViewOf(segs', listed') IN
           \A i \in 1..Len(batch) : \E j \in DOMAIN v :
              v[j] = [off |-> obs'.ret[i], ep |-> batch[i].ep, key |-> batch[i].key, id |-> batch[i].id]
@@ -378,7 +409,8 @@ P_AppendRet(batch, pre) ==
   ELSE /\ ViewOf(segs', listed') = View
        /\ obs'.ret = <<>>
        /\ obs'.err = "incorrect_offset" => (cfg.occ /\ batch[1].exp # -1 /\ batch[1].exp # pre)
-       /\ obs'.err \in {"incorrect_offset"}
+       \* (AppendMessageSet gives up when its segment was closed under it: ErrSegmentClosed)
+       /\ obs'.err \in (IF IsSet(batch) THEN {"closed"} ELSE {"incorrect_offset"})
 \* no step of the appender removes or alters anything
 P_AppendStep == IsPrefix(View, ViewOf(segs', listed'))
 
